@@ -526,3 +526,87 @@ Proof.
   - cbn [nonempty map]. rewrite app_nil_r. reflexivity.
   - cbn [nonempty]. cbn [app]. rewrite <- !app_assoc. reflexivity.
 Qed.
+
+(* ---------------------------------------------------------------------------------------- *)
+(* structure of the intended AST                                                            *)
+(* ---------------------------------------------------------------------------------------- *)
+Definition is_method (f : fkind) : bool := match f with KMethod _ => true | _ => false end.
+Definition is_virtual (f : fkind) : bool := match f with KVirtual _ => true | _ => false end.
+Definition keys_where (p : fkind -> bool) (fs : list (str * fkind)) : list str :=
+  map fst (filter (fun kf => p (snd kf)) fs).
+Definition methods_of (fs : list (str * fkind)) : list (str * argspec) :=
+  flat_map (fun kf => match snd kf with KMethod sp => [(fst kf, sp)] | _ => [] end) fs.
+
+Lemma collect_keys : forall fs c, collect fs = Ok c ->
+  map fst (c_props c) = keys_where (fun f => negb (is_method f)) fs /\
+  map fst (c_attrs c) = keys_where (fun f => negb (is_method f) && negb (is_virtual f)) fs /\
+  c_methods c = methods_of fs.
+Proof.
+  induction fs as [|[k f] r IH]; intros c H.
+  - injection H as <-. repeat split; reflexivity.
+  - cbn [collect] in H. unfold keys_where, methods_of in *. cbn [filter flat_map snd fst].
+    destruct f as [a|sp|a]; cbn [is_method is_virtual negb andb].
+    + unfold arg_annotation in H. destruct (typestr a); cbn [bind] in H; try discriminate.
+      destruct (collect r) as [c'| |]; cbn [bind] in H; try discriminate. injection H as <-.
+      destruct (IH c' eq_refl) as (H1 & H2 & H3). cbn [c_props c_attrs c_methods map fst app]. rewrite H1, H2, H3. auto.
+    + destruct (collect r) as [c'| |]; cbn [bind] in H; try discriminate. injection H as <-.
+      destruct (IH c' eq_refl) as (H1 & H2 & H3). cbn [c_props c_attrs c_methods map fst app]. rewrite H1, H2, H3. auto.
+    + unfold arg_annotation in H. destruct (typestr a); cbn [bind] in H; try discriminate.
+      destruct (collect r) as [c'| |]; cbn [bind] in H; try discriminate. injection H as <-.
+      destruct (IH c' eq_refl) as (H1 & H2 & H3). cbn [c_props c_attrs c_methods map fst app]. rewrite H1, H2, H3. auto.
+Qed.
+
+Lemma mapM_ann_pair_names : forall anns l l', mapM (ann_pair anns) l = Ok l' -> map fst l' = l.
+Proof.
+  induction l as [|a l IH]; intros l' H.
+  - injection H as <-. reflexivity.
+  - cbn [mapM] in H. unfold ann_pair at 1 in H.
+    destruct (match assoc str_eqb a anns with Some a0 => typestr a0 | None => Ok s_any end); cbn [bind] in H; try discriminate.
+    destruct (mapM (ann_pair anns) l) as [ys| |]; cbn [bind] in H; try discriminate. injection H as <-.
+    cbn [map fst]. now rewrite (IH ys).
+Qed.
+
+(* same parameter names and kinds as the bound function (the function minus its config parameter) *)
+Definition sig_matches (sp : argspec) (d : mdef) : Prop :=
+  map fst (a_args (m_args d)) = s_self :: tl (as_args sp) /\
+  a_vararg (m_args d) = as_varargs sp /\
+  map fst (a_kwonly (m_args d)) = as_kwonly sp /\
+  a_kwarg (m_args d) = as_varkw sp.
+
+Lemma method_ast_sig : forall k sp d, method_ast k sp = Ok d -> m_name d = k /\ sig_matches sp d.
+Proof.
+  intros k sp d H. unfold method_ast in H. destruct (as_args sp) as [|a0 pos] eqn:Ea; [discriminate|].
+  destruct (ann_pair (as_anns sp) a0); cbn [bind] in H; try discriminate.
+  destruct (mapM (ann_pair (as_anns sp)) pos) as [pos'| |] eqn:Ep; cbn [bind] in H; try discriminate.
+  destruct (mapM (ann_pair (as_anns sp)) (as_kwonly sp)) as [kw'| |] eqn:Ek; cbn [bind] in H; try discriminate.
+  injection H as <-. unfold sig_matches. cbn [m_name m_args a_args a_vararg a_kwonly a_kwarg map fst tl].
+  rewrite (mapM_ann_pair_names _ _ _ Ep), (mapM_ann_pair_names _ _ _ Ek), Ea. repeat split; reflexivity.
+Qed.
+
+Lemma methods_sig : forall ms ds, mapM method_ast_of ms = Ok ds ->
+  Forall2 (fun km d => m_name d = fst km /\ sig_matches (snd km) d) ms ds.
+Proof.
+  induction ms as [|[k sp] r IH]; intros ds H.
+  - injection H as <-. constructor.
+  - cbn [mapM] in H. unfold method_ast_of at 1 in H. cbn [fst snd] in H.
+    destruct (method_ast k sp) as [d| |] eqn:Ed; cbn [bind] in H; try discriminate.
+    destruct (mapM method_ast_of r) as [ds'| |]; cbn [bind] in H; try discriminate. injection H as <-.
+    constructor; [exact (method_ast_sig _ _ _ Ed)|now apply IH].
+Qed.
+
+Definition structure (tgt : target) (cn : option str) (fs : list (str * fkind)) (s : stub) : Prop :=
+  class_name_of tgt cn = Ok (st_class s) /\
+  map fst (st_attrs s) = keys_where (fun f => negb (is_method f)) fs /\
+  map fst (st_init s) = keys_where (fun f => negb (is_method f) && negb (is_virtual f)) fs /\
+  Forall2 (fun km d => m_name d = fst km /\ sig_matches (snd km) d) (methods_of fs) (st_methods s).
+
+Theorem stub_structure : forall tgt cn fs s, stub_ast tgt cn fs = Ok s -> structure tgt cn fs s.
+Proof.
+  intros tgt cn fs s H. unfold stub_ast in H.
+  destruct (class_name_of tgt cn) as [name| |] eqn:En; cbn [bind] in H; try discriminate.
+  destruct (collect fs) as [c| |] eqn:Ec; cbn [bind] in H; try discriminate.
+  destruct (mapM method_ast_of (c_methods c)) as [ms| |] eqn:Em; cbn [bind] in H; try discriminate.
+  injection H as <-. destruct (collect_keys _ _ Ec) as (H1 & H2 & H3).
+  unfold structure. cbn [st_class st_attrs st_init st_methods]. repeat split; try assumption.
+  rewrite <- H3. now apply methods_sig.
+Qed.
